@@ -90,4 +90,13 @@ def missLines (nums : List Int) : List Int :=
   | none => []
   | some last => ((List.range last.toNat).map (fun (i : Nat) => ((i : Int) + 1))).filter (fun n => !nums.contains n)
 
+/-- The same with the upper end `last + 1` computed in the signed 16-bit type of the POD line-number field, as the code
+did before fix 7ab6521 (`range(1, scans["scan_line_number"][-1] + 1)`): the sum wraps at 32767. -/
+def missLinesI16 (nums : List Int) : List Int :=
+  match nums.getLast? with
+  | none => []
+  | some last =>
+    let stop := (last + 1 + 32768) % 65536 - 32768
+    ((List.range (stop - 1).toNat).map (fun (i : Nat) => ((i : Int) + 1))).filter (fun n => !nums.contains n)
+
 end PygacModel
